@@ -91,6 +91,84 @@ def driver_crash(ctx, p, args):
     return False
 
 
+def parse_race_log(path, repo):
+    """-> list of (is_qed, [(file, line), (file, line)], text). A report counts against QED only when both
+    conflicting accesses are in QED's own (non-hook) source and neither call stack passes through a
+    verification hook (the hooks read node state from outside, which production code never does)."""
+    out = []
+    txt = open(path, errors="replace").read()
+    for blk in txt.split("=================="):
+        if "DATA RACE" not in blk:
+            continue
+        accs, cur = [], None
+        for line in blk.splitlines():
+            if re.match(r"^(Read|Write|Previous read|Previous write|Atomic|Previous atomic)[^:]* by (main )?goroutine", line):
+                cur = []
+                accs.append(cur)
+                continue
+            if re.match(r"^Goroutine \d+", line):
+                cur = None
+                continue
+            if cur is not None:
+                m = re.match(r"^\s+(/\S+\.go):(\d+)", line)
+                if m:
+                    cur.append((m.group(1), int(m.group(2))))
+        if len(accs) < 2 or not accs[0] or not accs[1]:
+            continue
+
+        def qed(f):
+            return f[0].startswith(repo + "/") and "verif" not in os.path.basename(f[0])
+        hook = any("verif" in os.path.basename(f[0]) and f[0].startswith(repo + "/") for a in accs[:2] for f in a)
+        out.append((qed(accs[0][0]) and qed(accs[1][0]) and not hook, [accs[0][0], accs[1][0]], blk.strip()[:6000]))
+    return out
+
+
+def race_stage(runs):
+    """runs: list of (driver, extra_args). Thorough tier only."""
+    def stage(ctx):
+        """The same real executions under the Go race detector: a report whose two conflicting accesses are both in
+        QED's own source (no verification hook on either stack) falsifies the data-race clause"""
+        if not ctx.thorough:
+            return
+        ctx.build_drv_race()
+        repo = os.path.realpath(REPO)
+        logdir = os.path.join(ctx.work, "race")
+        os.makedirs(logdir, exist_ok=True)
+        seen = set()
+        for i, (driver, extra) in enumerate(runs):
+            outdir = os.path.join(ctx.work, "race_out_%d" % i)
+            os.makedirs(outdir, exist_ok=True)
+            a = [driver, "-out", outdir, "-fi", "0", "-files", "1", "-tier", "quick", "-seed", str(ctx.seed)] + list(extra)
+            try:
+                p = ctx.run_drv(a, timeout=1500, check=False, race=True,
+                                env_extra={"GORACE": "halt_on_error=0 exitcode=0 log_path=%s/r%d" % (logdir, i)})
+            except Infra as e:
+                ctx.note("race run of %s did not finish: %s" % (driver, str(e)[:200]))
+                continue
+            ctx.count("race_runs")
+            if p.returncode != 0:
+                if driver_crash(ctx, p, a):
+                    continue
+                ctx.note("race run of %s %s ended with rc=%d (slow under the detector): not evaluated" % (driver, " ".join(extra), p.returncode))
+                continue
+            for lf in sorted(glob.glob(os.path.join(logdir, "r%d.*" % i))):
+                for is_qed, tops, text in parse_race_log(lf, repo):
+                    ctx.count("race_reports")
+                    if not is_qed:
+                        ctx.count("race_reports_harness_or_hook")
+                        continue
+                    key = tuple(sorted("%s:%d" % (os.path.relpath(f, repo), ln) for f, ln in tops))
+                    if key in seen:
+                        continue
+                    seen.add(key)
+                    dump = os.path.join(ctx.work, "race_%d.txt" % len(ctx.replay_files))
+                    with open(dump, "w") as f:
+                        f.write(" ".join(a) + "\n" + text)
+                    ctx.replay_files.append(dump)
+                    ctx.violation(ctx.pid, "data race between %s and %s (%s)" % (key[0], key[-1], driver), dump)
+    return stage
+
+
 def trace_files_stage(ctx, driver, prefix, nfiles, module="Trace_Balloon", cfg=None, extra_args=None, spec="Spec", subdir=None):
     """run `drv <driver>` nfiles times in parallel, validate every trace with TLC, collect VIOL tags"""
     cfg = cfg or BALLOON_CFG
@@ -131,7 +209,7 @@ def trace_files_stage(ctx, driver, prefix, nfiles, module="Trace_Balloon", cfg=N
         r = ctx.tlc(module, cfgtext, tag, workers=1, timeout=ctx.pick(1500, 5400))
         return path, r
     t1 = time.time()
-    results = par_map(validate, files)
+    results = par_map(validate, files, workers=tv_par(ctx.tier))
     ctx.tv["tlc_wall"] += time.time() - t1
     distinct = set()
     for path, r in results:
@@ -523,7 +601,9 @@ PLANS = {
                 "(the cache warm-up reads 1000 tiles per page), then inserted into and queried; MC_Hyper: the incremental hyper tree used for these "
                 "traces is the canonical one for every insertion sequence of a 9-key 8-bit universe up to MaxLen"),
     "C09": plan("model_checking", [mc_cluster, cluster_tv("restore", 4, 16)], RULE_CLUSTER),
-    "C10": plan("model_checking", [mc_cluster, cluster_tv("window", 6, 16), cluster_tv("replicas", 2, 6)], RULE_CLUSTER + "; window scenario: the gated store "
+    "C10": plan("model_checking", [mc_cluster, cluster_tv("window", 6, 16), cluster_tv("replicas", 2, 6),
+                                   race_stage([("cluster", ["-scenario", "window"]), ("cluster", ["-scenario", "replicas"]), ("cluster", ["-scenario", "backup"]), ("api", [])])],
+                RULE_CLUSTER + "; thorough tier: the window / replicas / backup / HTTP scenarios once more under the Go race detector (reports between two QED sites count); window scenario: the gated store "
                 "holds db.Mutate of an insertion before the real write while other goroutines issue every kind of query for old and in-flight "
                 "events (and backups); replies are verified against the snapshots acknowledged afterwards"),
     "C16": plan("model_checking", [mc_cluster, mc_restore, cluster_tv("backup", 6, 16), cluster_tv("window", 2, 6)], RULE_CLUSTER + "; backup scenario: random add / backup / "
@@ -540,8 +620,8 @@ PLANS = {
                 "batchers, batch size 1-5, real ed25519) with seeded arrival patterns (bursts at k*BatchSize+-1, singles, gaps around the flush "
                 "interval, trickles); every produced snapshot and published batch validated; sampled signed snapshots are modified in every field "
                 "and in each of the 512 signature bits and re-verified; distinct = (batch composition)"),
-    "C18": plan("model_checking", [mc_gossip, gossip_tv_stage, gossiptopo_tv_stage],
-                "MC: Gossip.tla (agents with roles, in-flight messages with ttl, per-agent processed cache, duplication by the network): NeverSelf, "
+    "C18": plan("model_checking", [mc_gossip, gossip_tv_stage, gossiptopo_tv_stage, race_stage([("gossip", []), ("gossiptopo", [])])],
+                "thorough tier: both conformance scenarios once more under the Go race detector (reports between two QED sites count). MC: Gossip.tla (agents with roles, in-flight messages with ttl, per-agent processed cache, duplication by the network): NeverSelf, "
                 "NeverExhausted, OncePerAgent, Bounded over all interleavings, initial TTLs incl. 0 and negative. TV 1: 5 real agents (memberlist over "
                 "loopback, real BatchProcessor, recording task manager and In-bus subscribers); batches injected with TTL in {5,4,3,2,1,0,-1,-3}, re-published "
                 "and re-delivered in storms; TV 2: 8 goroutines hammering the real Topology with joins/leaves and routing decisions (Each/Get) for seconds; "
